@@ -1,4 +1,4 @@
-package main
+package c14
 
 // C14 — reflection machinery: populate every field of every model type, encode a Go value as
 // the heap value `CV.Heap.GoVal` (references carry the identity of the memory they point at),
